@@ -837,7 +837,13 @@ class Object(ObjectAliasMixin):
         Raises:
             ValueError: When the relative path could not be computed.
         """
-        cwd = Path.cwd()
+        try:
+            cwd = Path.cwd()
+        except OSError as error:
+            # The current working directory does not exist anymore: nothing is relative to it.
+            if isinstance(self.filepath, list):
+                raise ValueError(f"No directory in {self.filepath!r} is relative to a missing working directory") from error
+            return self.filepath
         if isinstance(self.filepath, list):
             for self_path in self.filepath:
                 with suppress(ValueError):
